@@ -566,8 +566,15 @@ def r5_file(repo, report):
               expected="prefix + <sequence part of the record> + suffix + ';' + <the record's parameters>", loc=repo.loc(f2n),
               why="" if okp is not False else "with file$: a record such as 'ACGT;e=0.2' becomes 'ACGT;e=0.2$': the '$' ends up in the parameter value (\"could not convert string to float: '0.2$'\") and the record is not read")
     raf = _roles_read_adapters_fasta(repo)
-    ys = [src(n.value) for n in ast.walk(raf) if isinstance(n, ast.Yield)]
-    report.ob("C18.R5", "read_adapters_fasta yields (name, sequence) of every record", ys == ["(name, record.sequence)"] and any(isinstance(n, ast.For) and src(n.iter) == "fasta" for n in ast.walk(raf)), facts={"yields": ys}, expected="for record in fasta: yield name, record.sequence", loc=repo.loc(raf))
+    from ..repo import expand, nsrc
+    ys = [nsrc(src(expand(raf, n.value))) for n in ast.walk(raf) if isinstance(n, ast.Yield)]
+    loops = [n for n in ast.walk(raf) if isinstance(n, ast.For) and isinstance(n.target, ast.Name) and any(isinstance(y, ast.Yield) for y in ast.walk(n))]
+    rec_ = loops[0].target.id if len(loops) == 1 else None
+    hdr = f"{rec_}.name.split(None, 1)"
+    want = nsrc(f"(({hdr})[0] if {hdr} else None, {rec_}.sequence)")
+    over_reader = len(loops) == 1 and "FastaReader" in src(expand(raf, loops[0].iter))
+    report.ob("C18.R5", "read_adapters_fasta yields (name, sequence) of every record", ys == [want] and over_reader, facts={"yields_expanded": ys, "loop_over": src(loops[0].iter) if loops else None},
+              expected="for record in FastaReader(f): yield <first word of record.name or None>, record.sequence", loc=repo.loc(raf))
 
 
 def r6_abs_errors(repo, report):
